@@ -92,6 +92,8 @@ def gen_pairs_trace(recipe, rng):
       return -1.0
     if t < len(dist):
       return float(dist[t])
+    if t < 12:
+      return float(dist[t % len(dist)])
     return float(dist[-1] * 2 + 1)
   for op in recipe['ops']:
     kind = op[0]
@@ -105,6 +107,12 @@ def gen_pairs_trace(recipe, rng):
       events.append({'ev': 'Calibrate', 'thr_after': dy(est.threshold_), 'strategy': strat})
     elif kind == 'set_threshold':
       t = real_thr(op[1])
+      # exact tie, or a NEAR tie: one ulp / a few 1e-6 relative below a learned distance (that pair must then be -1)
+      variant = (op[1] // 4) % 3
+      if variant == 1 and t > 0:
+        t = float(np.nextafter(t, -np.inf))
+      elif variant == 2 and t > 0:
+        t = float(t * (1.0 - 2.0 ** -20))
       val = [t, np.float64(t), np.float32(t) if float(np.float32(t)) == t else t, int(t) if float(int(t)) == t else t][op[1] % 4]
       est.set_threshold(val)
       events.append({'ev': 'SetThreshold', 'arg': dy(float(val)), 'thr_after': dy(est.threshold_), 'exc': ''})
